@@ -140,6 +140,12 @@ def rename(rng, desc, special=0.12):
                 mp[c["name"]] = cand
                 continue
         mp[c["name"]] = rname(rng, used)
+    if rng.random() < 0.07 and "Scale" not in used and "Scale" not in mp.values():
+        # a component that carries the heat-scale legend's own name AND sits in a group (a cluster): the legend must still be a node of its own
+        c = rng.choice(desc["comps"])
+        mp[c["name"]] = "Scale"
+        if not c.get("group"):
+            c["group"] = "G1"
     gused = set()
     gmap = {}
     for g in ("G1", "G2", "G3", "G4"):           # group names: the same alphabet, plus a few particular ones
